@@ -259,6 +259,19 @@ def k_reuse(ctx, seed, start="ctor"):
                     ("transaction_seq_num", lambda: setattr(h, "transaction_seq_num", X.ByteFieldGenerator.from_int(g["seqw"], g["seq"])))]
         r.shuffle(ops)
         g["segmeta"] = f["segmeta"]          # no setter for the segment metadata flag on the bare header
+        if r.random() < 0.5:
+            # only some of the setters are used in this round; the fields behind the others keep their values
+            keep = {"pdu_type": ("pdu_type",), "direction": ("direction",), "transmission_mode": ("mode",), "crc_flag": ("crc",), "file_flag": ("large",), "seg_ctrl": ("segctrl",),
+                    "pdu_data_field_len": ("data_len",), "src.value": ("src",), "dst.value": ("dst",), "seq.value": ("seq",), "set_entity_ids": ("idw", "src", "dst"), "transaction_seq_num": ("seqw", "seq")}
+            kept_ops = []
+            for name, fn in ops:
+                if r.random() < 0.35:
+                    for k in keep[name.split("=")[0]]:
+                        g[k] = f[k]
+                else:
+                    kept_ops.append((name, fn))
+            ops = kept_ops
+            ctx.table("reuse_setters", "partial_round")
         for name, fn in ops:
             ok, e = attempt(fn)
             trail.append(name)
